@@ -96,6 +96,9 @@ struct Running {
     out_path: PathBuf,
 }
 
+/// Jobs started a second time after their process died without a verdict.
+pub static RETRIES: std::sync::atomic::AtomicU64 = std::sync::atomic::AtomicU64::new(0);
+
 /// Runs all jobs in child processes (`vx job <file>`), at most `par` at a time.
 pub fn run_pool(jobs: &[Job], par: usize, job_timeout: Duration) -> Vec<Result<JobResult, String>> {
     let tmp = PathBuf::from(format!("/dev/shm/vx-pool-{}", std::process::id()));
@@ -105,12 +108,18 @@ pub fn run_pool(jobs: &[Job], par: usize, job_timeout: Duration) -> Vec<Result<J
     let exe = tmp.join("vx");
     std::fs::copy(std::env::current_exe().expect("current_exe"), &exe).expect("copy exe");
     let mut results: Vec<Option<Result<JobResult, String>>> = (0..jobs.len()).map(|_| None).collect();
-    let mut next = 0usize;
+    // a job whose process exits with a harness panic (not a signal) is started once more before it
+    // counts as a machinery error: jobs are deterministic, so a second death is not a coincidence
+    let mut pending: std::collections::VecDeque<usize> = (0..jobs.len()).collect();
+    let mut attempts = vec![0u8; jobs.len()];
     let mut running: Vec<Running> = Vec::new();
-    while next < jobs.len() || !running.is_empty() {
-        while running.len() < par && next < jobs.len() {
+    while !pending.is_empty() || !running.is_empty() {
+        while running.len() < par && !pending.is_empty() {
+            let next = pending.pop_front().unwrap();
+            attempts[next] += 1;
             let spec_path = tmp.join(format!("job{next}.json"));
             let out_path = tmp.join(format!("out{next}.json"));
+            let _ = std::fs::remove_file(&out_path);
             std::fs::write(&spec_path, serde_json::to_vec(&jobs[next]).unwrap()).unwrap();
             let child = Command::new(&exe)
                 .arg("job")
@@ -123,7 +132,6 @@ pub fn run_pool(jobs: &[Job], par: usize, job_timeout: Duration) -> Vec<Result<J
                 .spawn()
                 .expect("spawn job");
             running.push(Running { child, idx: next, started: Instant::now(), out_path });
-            next += 1;
         }
         let mut i = 0;
         let mut progressed = false;
@@ -168,7 +176,13 @@ pub fn run_pool(jobs: &[Job], par: usize, job_timeout: Duration) -> Vec<Result<J
                             }
                         }
                     };
-                    results[r.idx] = Some(res);
+                    if res.is_err() && attempts[r.idx] < 2 {
+                        eprintln!("note: {}; starting it once more", res.as_ref().err().unwrap().lines().next().unwrap_or(""));
+                        RETRIES.fetch_add(1, std::sync::atomic::Ordering::SeqCst);
+                        pending.push_back(r.idx);
+                    } else {
+                        results[r.idx] = Some(res);
+                    }
                     running.swap_remove(i);
                     progressed = true;
                 }
@@ -327,6 +341,10 @@ pub fn finish(meta: &PropMeta, tier: &str, results: Vec<Result<JobResult, String
     }
     if !machinery.is_empty() {
         c.insert("machinery_errors".into(), json!(machinery));
+    }
+    let retries = RETRIES.load(std::sync::atomic::Ordering::SeqCst);
+    if retries > 0 {
+        c.insert("jobs_started_a_second_time".into(), json!(retries));
     }
     let ev = json!({
         "property_id": meta.id,
